@@ -37,4 +37,9 @@ def splitKeep (p : Char → Bool) : Str → List Str
 /-- `x.split()` : the maximal runs of non-space characters -/
 def words (x : Str) : List Str := (splitKeep isPySpace x).filter (fun w => !w.isEmpty)
 
+/-- `x` cut before its longest suffix of characters that satisfy `p`: (the rest, that suffix) -/
+def tailSplit (p : Char → Bool) (x : Str) : Str × Str :=
+  let w := (x.reverse.takeWhile p).reverse
+  (x.take (x.length - w.length), w)
+
 end Pyrealb.Number
